@@ -26,9 +26,21 @@ def _instance(ex, lem, binding):
 def statement(ex, lem):
     """forall params. requires => ensures  (used as a hypothesis where a contract says uses(lemma))"""
     bvs = dict((p, SV(pt, BVar('%s_%s' % (lem.name, p), sort_of(pt)))) for p, pt in lem.params)
+    qvars = [bvs[p].t for p, _ in lem.params]
+    if lem.measure is not None:
+        mp, mexpr = lem.measure
+        st = State()
+        old = ex.pure
+        ex.pure = True
+        try:
+            mv = CEval(ex, st, None, None, None, dict((k, v) for k, v in bvs.items() if k != mp)).ev(mexpr)
+        finally:
+            ex.pure = old
+        qvars = [bvs[p].t for p, _ in lem.params if p != mp]
+        bvs[mp] = SV(bvs[mp].pt, mv.t)
     req, ens = _instance(ex, lem, bvs)
     body = Implies(req, And(*[e for _, e in ens]))
-    return ForAll([bvs[p].t for p, _ in lem.params], body)
+    return ForAll(qvars, body)
 
 
 def obligations(ex, lem):
@@ -43,8 +55,9 @@ def obligations(ex, lem):
         if n.pt.kind != 'int':
             raise OutOfSubset('induction variable must be an Int')
         # hypothesis: the statement at n-1, every other parameter universally quantified
-        others = [(p, pt) for p, pt in lem.params if p != lem.induct]
-        b2 = dict((p, SV(pt, BVar('ih_%s' % p, sort_of(pt)))) for p, pt in others)
+        others = [(p, pt) for p, pt in lem.params if p != lem.induct and p in getattr(lem, 'generalize', [])]
+        b2 = dict(consts)
+        b2.update(dict((p, SV(pt, BVar('ih_%s' % p, sort_of(pt)))) for p, pt in others))
         b2[lem.induct] = SV(n.pt, Sub(n.t, IntC(1)))
         r2, e2 = _instance(ex, lem, b2)
         ih = Implies(r2, And(*[e for _, e in e2]))
@@ -54,6 +67,25 @@ def obligations(ex, lem):
         # well-foundedness: the precondition bounds the induction variable from below
         out.append(Obligation('LEMMA.%s.wellfounded' % lem.name, 'lemma', [req], Ge(n.t, IntC(0)), 'lemma:' + lem.name, lem.lineno, 1,
                               'requires must imply %s >= 0' % lem.induct))
+    # hints: intermediate facts, each proved from what precedes it and then available (Dafny `assert`)
+    st = State()
+    old = ex.pure
+    ex.pure = True
+    try:
+        ce = CEval(ex, st, None, None, None, dict(consts))
+        for h in lem.hints:
+            t = ce.boolean(h.expr)
+            out.append(Obligation('LEMMA.%s.%s' % (lem.name, h.label), 'lemma', list(pc), t, 'lemma:' + lem.name, h.lineno, 1, 'proof hint'))
+            pc.append(t)
+    finally:
+        ex.pure = old
     for label, e in ens:
         out.append(Obligation('LEMMA.%s.%s' % (lem.name, label), 'lemma', list(pc), e, 'lemma:' + lem.name, lem.lineno, 1, 'by induction on %s' % lem.induct))
     return out
+
+
+def instance_at(ex, lem, args):
+    """requires => ensures at concrete arguments (no quantifier)"""
+    binding = dict((p, ex.coerce(a, pt)) for (p, pt), a in zip(lem.params, args))
+    req, ens = _instance(ex, lem, binding)
+    return Implies(req, And(*[e for _, e in ens]))
